@@ -195,6 +195,7 @@ def extra_passes(ctx, g, lp, exe, cls, label):
 # ---------------------------------------------------------------------------------------------------------------------
 # direction (B): long recorded histories validated by TLC
 SIZES = [1, 4095, 4096, 4097, 8191, 8192, 8193, 20000]
+CAP = 26000            # no operation is generated that could make a text longer than this
 SMALL = [[], [97], [32], [104, 111], [32, 66], [120, 121, 122], [97, 66, 32], [9, 32], [113, 120, 106]]
 
 
@@ -245,13 +246,16 @@ def gen_history(rnd, nops, k):
             which = rnd.choice(["splice_from_ptr", "splice_from_ptr", "splice", "splice_from_ptr_null"])
             args = [i, cnt] + ([t] if which == "splice_from_ptr" else [])
             op = (which, args)
-            L[sl] = max(0, n - min(max(cnt, 0), n))      # rough
+            add = len(t) if which == "splice_from_ptr" else ((L[ot] or 0) if which == "splice" else 0)
+            if n + add > CAP:
+                continue
+            L[sl] = n + add                               # upper bound (the mirror never under-estimates a length)
         elif r < 0.27:
             op = (rnd.choice(["trim", "reverse", "upcase", "downcase", "reverse"]), [])
         elif r < 0.29:
             op = rnd.choice([("clear", [c]), ("sprintf_s", [t]), ("sprintf_d", [rnd.randint(-99, 99999)]), ("sprintf_lit", [t]),
                              ("sprintf_sd", [t, rnd.randint(-5, 500)]), ("done", [])])
-            L[sl] = n if op[0] == "clear" else (0 if op[0] == "done" else 3)
+            L[sl] = n if op[0] == "clear" else (0 if op[0] == "done" else 12)      # upper bounds
         elif r < 0.34:
             big_ctor(sl, True)
             continue
@@ -263,7 +267,7 @@ def gen_history(rnd, nops, k):
                 op = rnd.choice([("append", []), ("prepend", []), ("find", []), ("cmp", []), ("casecmp", []),
                                  ("ncmp", [rnd.choice([0, 1, 4096, 4097, n, n + 1])]), ("ncasecmp", [rnd.choice([1, 4095, n])])])
                 if op[0] in ("append", "prepend"):
-                    if n + L[ot] > 60000:
+                    if n + L[ot] > CAP:
                         continue
                     L[sl] = n + L[ot]
         elif r < 0.43:
@@ -273,13 +277,13 @@ def gen_history(rnd, nops, k):
                 continue
             op = rnd.choice([("append_self", []), ("prepend_self", []), ("find_self", []), ("cmp_self", []), ("splice_self", [i, 1])])
             if op[0] in ("append_self", "prepend_self"):
-                if n * 2 > 60000:
+                if n * 2 > CAP:
                     continue
                 L[sl] = n * 2
             elif op[0] == "splice_self":
-                if n * 2 > 60000:
+                if n * 2 > CAP:
                     continue
-                L[sl] = n * 2      # rough
+                L[sl] = n * 2      # upper bound
         elif r < 0.60:
             cnt = rnd.choice([0, 1, 2, 7, -1, -7, 4096, -4096, n, n + 5, rnd.randint(-n - 1, n + 1)])
             if cnt == 0 or abs(cnt) > 64:
@@ -331,7 +335,7 @@ def record(ctx, exe, cls, hist, texts):
 def trace_validation(ctx, exe):
     from vlib import trace
     rnd = random.Random(ctx.seed)
-    nexec, nops = (8, 50) if ctx.tier == "quick" else (64, 200)
+    nexec, nops = (8, 50) if ctx.tier == "quick" else (24, 160)
     hist = [gen_history(rnd, nops if k % 4 else max(50, nops // 2), k) for k in range(nexec)]
     texts = [history_text(k, h) for k, h in enumerate(hist)]
     total = 0
@@ -391,4 +395,31 @@ def run(ctx):
 
 
 def replay(ctx, path):
-    return objcheck.replay_file(harness(ctx), [], path, ctx.rundir)
+    d = json.load(open(path))
+    rp = d.get("replay") or {}
+    exe = harness(ctx)
+    if "event_index" not in rp:
+        return objcheck.replay_file(exe, [], path, ctx.rundir)
+    # a recorded execution that TLC rejected: record it again on the current tree and validate it again
+    from vlib import trace
+    cls = rp["variant"]
+    h = []
+    for ln in rp["script_text"].splitlines()[1:-1]:
+        w = ln.split(" = ")[0].split(" ")
+        sl = "b" if w[0].startswith("b_") else "a"
+        h.append((sl, w[0][2:] if sl == "b" else w[0], [untok(x) for x in w[1:] if x != ""]))
+    events, index, fails = record(ctx, exe, cls, [h], [history_text(0, h)])
+    for f in fails:
+        print("REPRODUCED (run fails before validation)", f)
+        if f.detail:
+            print(f.detail)
+    if fails:
+        return 1
+    ok, pos, _ = trace.validate(ctx, "StrObjTrace.tla", "StrObjTrace.cfg", events, tag="replay")
+    if ok:
+        print("not reproduced: TLC accepts the re-recorded execution (%d events)" % len(events))
+        return 0
+    ev = dict(events[pos])
+    ev.pop("post", None)
+    print("REPRODUCED: TLC rejects the re-recorded execution at event %d: %s" % (pos, json.dumps(ev)[:400]))
+    return 1
